@@ -171,6 +171,61 @@ theorem moved_line_detected (body : Bytes) (hb : SgrBody body) (rest : Bytes) (s
 example : lineHasStyleOtherThan [0x1b, 0x5b, 0x31, 0x3b, 0x33, 0x35, 0x6d, 0x2d, 0x78] [gitDefaultMinus, gitDefaultMinus] = true := by
   decide
 
+/-! ### The decision `maybe_raw_line` takes (boolean shape read from the source) -/
+
+/-- All 16 valuations: the raw line is kept iff the caller is a word-diff, or the line's style is
+`raw`, or raw lines are inspected and the line carries a style other than git's default. -/
+theorem emit_raw_line_table : ∀ w i o s : Bool,
+    Generated.emitRawLine w i o s = (w || s || (i && o)) := by decide
+
+/-- A line whose style is `raw` keeps its input colouring — whatever `--inspect-raw-lines` says,
+whatever the line looks like. -/
+theorem raw_style_keeps_raw_line (w i : Bool) (raw : Bytes) (styles : List Style) :
+    keepsRawLine w i true raw styles = true := by
+  simp [keepsRawLine, emit_raw_line_table]
+
+/-- Under `git diff --word-diff` / `--color-words` every hunk line keeps its input colouring. -/
+theorem word_diff_keeps_raw_line (i s : Bool) (raw : Bytes) (styles : List Style) :
+    keepsRawLine true i s raw styles = true := by
+  simp [keepsRawLine, emit_raw_line_table]
+
+/-- Git's default colouring is ignored: a removed line that starts with `ESC[31m`, an added line
+that starts with `ESC[32m`, and an uncoloured line are not kept raw (no raw style, no word-diff),
+with or without inspection. -/
+theorem git_default_colouring_ignored (i : Bool) (rest : Bytes) (cfgGit : Style) :
+    keepsRawLine false i false ([0x1b, 0x5b, 0x33, 0x31, 0x6d] ++ rest) [gitDefaultMinus, cfgGit] = false ∧
+    keepsRawLine false i false ([0x1b, 0x5b, 0x33, 0x32, 0x6d] ++ rest) [gitDefaultPlus, cfgGit] = false := by
+  have h1 := git_default_minus_not_raw rest cfgGit
+  have h2 := git_default_plus_not_raw rest cfgGit
+  simp only [keepsRawLine, emit_raw_line_table, h1, h2]
+  simp
+
+theorem uncoloured_line_not_kept_raw (i : Bool) (c : Bytes) (hc : IsChar c) (hne : c ≠ [0x1b]) (rest : Bytes)
+    (styles : List Style) : keepsRawLine false i false (c ++ rest) styles = false := by
+  simp [keepsRawLine, emit_raw_line_table, uncoloured_not_raw c hc hne rest styles]
+
+/-- Moved-line colours: with inspection on (the default), a line that starts with any other SGR
+sequence is kept raw exactly when its parsed style equals none of the caller's default styles. -/
+theorem moved_line_kept_raw (body : Bytes) (hb : SgrBody body) (rest : Bytes) (styles : List Style) :
+    ∃ ps, csiKind body 0x6d = .sgr ps ∧
+      keepsRawLine false true false (0x1b :: 0x5b :: (body ++ 0x6d :: rest)) styles =
+        !(styles.any fun st => styleEq (sgrToStyle ps) st) := by
+  obtain ⟨ps, h1, h2⟩ := moved_line_detected body hb rest styles
+  exact ⟨ps, h1, by simp [keepsRawLine, emit_raw_line_table, h2]⟩
+
+/-- `--inspect-raw-lines=false` switches off the detection of moved-line colours, and nothing else. -/
+theorem inspection_off_only_disables_detection (w s : Bool) (raw : Bytes) (styles : List Style) :
+    keepsRawLine w false s raw styles = (w || s) := by
+  simp [keepsRawLine, emit_raw_line_table]
+
+/-- `ESC[1;35m-x` (git's `oldMoved`) on a removed line: kept with inspection, dropped without;
+kept in any case under `--minus-style raw`. -/
+example :
+    keepsRawLine false true false [0x1b, 0x5b, 0x31, 0x3b, 0x33, 0x35, 0x6d, 0x2d, 0x78] [gitDefaultMinus, gitDefaultMinus] = true ∧
+    keepsRawLine false false false [0x1b, 0x5b, 0x31, 0x3b, 0x33, 0x35, 0x6d, 0x2d, 0x78] [gitDefaultMinus, gitDefaultMinus] = false ∧
+    keepsRawLine false false true [0x1b, 0x5b, 0x31, 0x3b, 0x33, 0x35, 0x6d, 0x2d, 0x78] [gitDefaultMinus, gitDefaultMinus] = true := by
+  decide
+
 /-! ### Moved-line colours survive parsing and re-emission -/
 
 /-- For an SGR sequence over the supported parameter set — attributes 1–9, 30–37, 40–47, 90–97,
